@@ -84,6 +84,12 @@ def run_case(ctx, res, p):
         res.oracle_fail("compute_L accepted an Lp of the wrong shape / inconsistent configuration", p,
                         signature="C04:missing-refusal")
         return
+    if not np.all(np.isfinite(L)):
+        res.case(canon, True, sample)
+        res.oracle_fail("the factor L contains NaN / inf entries", p,
+                        detail={"shape": list(L.shape), "bad_columns": int(np.sum(~np.all(np.isfinite(L), axis=0)))},
+                        signature="C04:nonfinite-factor")
+        return
     K = cu.kernel_np(cov, X, X)
     Kj = K + jitter * np.eye(n)
     LLt = L @ L.T
@@ -294,6 +300,19 @@ def gen_case(rng, stream):
     mm = n if Xu is None else Xu.shape[0]
     if gp in ("full_nystroem", "sparse_nystroem"):
         rank = [0.5, 0.9, 0.99, 1, 2, 3][rng.integers(6)]
+        if rng.random() < 0.25:
+            # rank-deficient data: the cells sit on 2 distinct positions, the request asks for more directions than the
+            # projection has positive eigenvalues (the retained rank is clipped to them)
+            X = X[rng.integers(0, 2, size=(14 if gp == "sparse_nystroem" else n))].copy()
+            n = X.shape[0]
+            if gp == "sparse_nystroem":
+                # 10 inducing points: the inner matrix R R^T has 2 positive and 8 numerically-zero (partly negative)
+                # eigenvalues; rank 9 asks for 7 of the latter
+                Xu = gen_points(rng, 10, d, kind="plain")[0]
+                mm = 10
+                rank = [9, 5, 0.99][rng.integers(3)]
+            else:
+                rank = [3, 5, 7, 0.999][rng.integers(4)]
     elif gp is None:
         r = rng.integers(4)
         rank = [None, 1.0, 0.9, 2][r]
